@@ -155,7 +155,7 @@ def meta_doc(name=b"t", piece_length=4, files=None, length=None, nhashes=None, e
     total = length if length is not None else sum(f[0] for f in (files or []))
     if nhashes is None:
         nhashes = ceil_div(total, piece_length) if piece_length > 0 else 0
-        assert nhashes <= 4096, "generator bug: document with %d hashes" % nhashes
+        assert hashes is not None or nhashes <= 4096, "generator bug: document with %d hashes" % nhashes
     if hashes is None:
         hashes = b"".join(fake_hash(i) for i in range(nhashes))
     info.append((b"name", name))
@@ -176,6 +176,8 @@ def meta_doc(name=b"t", piece_length=4, files=None, length=None, nhashes=None, e
                 ent = [(b"length", f[0]), (b"path.utf-8", comps)]
             elif mode == "both":                      # the utf-8 variant wins; `path` holds something else
                 ent = [(b"length", f[0]), (b"path", [b"WRONG"] + comps[1:]), (b"path.utf-8", comps)]
+            elif mode == "both-empty-utf8":          # the utf-8 variant is present (a list) and EMPTY: it still takes precedence
+                ent = [(b"length", f[0]), (b"path", comps), (b"path.utf-8", [])]
             else:                                     # "both-mistyped": a non-list path.utf-8 is ignored
                 ent = [(b"length", f[0]), (b"path", comps), (b"path.utf-8", b"not-a-list")]
             fl.append(D(*ent))
@@ -186,7 +188,8 @@ def meta_doc(name=b"t", piece_length=4, files=None, length=None, nhashes=None, e
 
 # (U+FFFD, U+FFFE/U+FFFF, U+0000-free controls and the last code point are ordinary characters of a valid UTF-8 string)
 WORDS = [b"a", b"b", b"file", b"x.bin", b"dir", b"sub", b"\xc3\xa9t\xc3\xa9", b"a b", b"data.01", b"\xe6\x97\xa5\xe6\x9c\xac", b".pad", b"0", b"12", b"..x", b"x..", b"...",
-         b"caf\xef\xbf\xbd", b"\xef\xbf\xbd", b"\xef\xbf\xbe", b"\xf4\x8f\xbf\xbf", b"\x7f", b"\x01x"]
+         b"caf\xef\xbf\xbd", b"\xef\xbf\xbd", b"\xef\xbf\xbe", b"\xf4\x8f\xbf\xbf", b"\x7f", b"\x01x",
+         b"a\\b", b"..\\..\\x", b"\\", b"C:\\x"]
 BAD_COMPONENTS = [b"", b".", b"..", b"a/b", b"/abs", b"/", b"../x", b"x/..", b"a/", b"\xff\xfe", b"\xc0\xaf", b"\xed\xa0\x80", b"\xf4\x90\x80\x80", b"\xe2\x82"]
 U64 = 2**64
 
@@ -293,7 +296,7 @@ def gen_meta(rng):
         kw["path_utf8"] = True; tag = "path.utf-8 only"
     elif defect in (20, 21, 22) and multi:
         # every file decides on its own between path / path.utf-8 / both / a mistyped utf-8 variant
-        kw["files"] = [(f[0], f[1], rng.choice(["path", "utf8", "both", "both-mistyped"])) for f in kw["files"]]
+        kw["files"] = [(f[0], f[1], rng.choice(["path", "utf8", "both", "both-mistyped", "both-empty-utf8"])) for f in kw["files"]]
         tag = "path variants mixed per file"
     elif defect == 14:
         extra_info.append((b"length", b"str")) if multi else extra_info.append((b"files", b"str")); tag = "other key present but mistyped"
@@ -448,6 +451,15 @@ def prefix_key_dicts(rng, count):
     """dictionaries whose adjacent keys are related by PREFIX: in order (canonical) and swapped (must be refused), the empty
     key included — a comparison that only looks at the common prefix cannot tell them apart"""
     out = []
+    for _ in range(count // 3 + 1):
+        # keys of 16 bytes and more that share their first 15 / 16 / 17 / 32 bytes: in order, swapped, equal
+        head = (gen_bytes(rng, 4) or b"k") * 8
+        n = rng.choice([15, 16, 17, 32])
+        k1, k2 = head[:n] + b"b", head[:n] + b"c" + gen_bytes(rng, 2)
+        v1, v2 = gen_value(rng, 1), gen_value(rng, 1)
+        out.append((b"d" + benc(k1) + benc(v1) + benc(k2) + benc(v2) + b"e", "long keys with a common head, in order"))
+        out.append((b"d" + benc(k2) + benc(v2) + benc(k1) + benc(v1) + b"e", "long keys with a common head, swapped"))
+        out.append((b"d" + benc(k1) + benc(v1) + benc(k1) + benc(v2) + b"e", "long keys, duplicate"))
     for _ in range(count):
         k = gen_bytes(rng, 3) or b"a"
         ext = k + (gen_bytes(rng, 2) or b"\x00")
